@@ -177,7 +177,8 @@ def check_format_mir(rep, f):
             sitemap.setdefault(tr, {}).setdefault(site, set()).add((plus, prec))
             pv = mk("field", mk("downcast", mk("call", "core::fmt::Formatter::<>::precision", P(1)), "Some"), 0)
             precs = [x for x in items if tag(x) == "call" and x[1].startswith("core::fmt::rt::Argument::<>::from_usize")]
-            if (prec and (len(precs) != 2 or any(x[2] is not pv for x in precs))) or (not prec and precs):
+            # two precision arguments, or one shared by both numerals (`{:.p$} .. {:.p$}`); which placeholders use it is on the AST side
+            if (prec and (len(precs) not in (1, 2) or any(x[2] is not pv for x in precs))) or (not prec and precs):
                 errs.append("precision arguments are not f.precision()'s value for both numerals exactly when a precision was requested")
             if len(items) != 3 + len(precs):
                 errs.append("unexpected extra arguments")
